@@ -14,6 +14,12 @@ from . import shims, fakegrpc
 REPO = os.environ.get("VERIF_REPO", "/repo")
 SRC = os.path.join(REPO, "src")
 
+#: what the agent's trace function is shown: host files and (as in production, where it traces its own worker and
+#: timer threads) the agent's own modules - or host files only (a per-run knob: tracing itself costs ~50 us per line
+#: of agent code executed on those threads and dominates runs with large snapshots)
+VISIBLE_FULL = (os.path.join(SRC, "deep") + os.sep, "/simapp/", "/simlib/")
+VISIBLE_HOST = ("/simapp/", "/simlib/")
+
 _installed = False
 _originals = []   # (module, name, original)
 rebound = []      # names for the evidence
@@ -72,7 +78,7 @@ def install():
     cfb.threading = shims.THREADING
     rebound.append("concurrent.futures._base.threading")
     shims.patch_process_time()
-    shims.TRACE_SEAM.visible = (os.path.join(SRC, "deep") + os.sep, "/simapp/", "/simlib/")
+    shims.TRACE_SEAM.visible = VISIBLE_FULL
     _installed = True
 
 
